@@ -12,6 +12,8 @@
 #include <vector>
 #include <string>
 #include <functional>
+#include <cfenv>
+#include <random>
 
 #include "libfive/tree/tree.hpp"
 #include "libfive/tree/data.hpp"
@@ -164,6 +166,7 @@ int main(int argc, char** argv) {
         std::vector<std::string> t; std::string w;
         while (ls >> w) t.push_back(w);
         if (t.empty()) continue;
+        std::fesetround(FE_TONEAREST);   // a leaked rounding mode (C12) must not disturb this harness
         if (t[0] == "case") { case_id = t[1]; cmd = 0; cx.handles.clear(); cx.vars.clear(); continue; }
         if (t[0] == "end") { cx.handles.clear(); cx.vars.clear(); continue; }
         ++cmd;
@@ -283,6 +286,66 @@ int main(int argc, char** argv) {
                 float v1 = ar.value(p, *r.second);
                 bool ok = anynan || (memcmp(&v0, &v1, 4) == 0 && memcmp(&v0, &r.first, 4) == 0);
                 out(std::string("PV pts=1 bad=") + (ok ? "0" : "1") + (ok ? "" : (" base=" + hex32(v0) + " pushed=" + hex32(v1))));
+            }
+            else if (c == "ivcheck") {
+                // ivcheck h lx ly lz ux uy uz exact(0/1) : C02's statement on one expression and box
+                Tree tr = H(t[1]);
+                std::map<Tree::Id, float> vars;
+                for (size_t k = 0; k < cx.vars.size(); ++k) vars[cx.vars[k].id()] = 0.5f * (k + 1);
+                // one shared deck, as in libfive's Evaluator: min/max treat a NaN in their
+                // first and second operand differently, so operand order must be the same
+                auto deck = std::make_shared<Deck>(tr);
+                IntervalEvaluator iv(deck, vars);
+                struct ArV : public ArrayEvaluator {
+                    ArV(std::shared_ptr<Deck> d, const std::map<Tree::Id, float>& vs)
+                        : BaseEvaluator(d, vs), ArrayEvaluator(d, vs) {}
+                    bool any_inf() const {
+                        for (long k = 0; k < v.rows(); ++k) if (std::isinf(v(k, 0))) return true;
+                        return false;
+                    }
+                } ar(deck, vars);
+                Eigen::Vector3f lo(of_hex32(t[2]), of_hex32(t[3]), of_hex32(t[4]));
+                Eigen::Vector3f hi(of_hex32(t[5]), of_hex32(t[6]), of_hex32(t[7]));
+                bool exact = (t[8] == "1");
+                Interval r = iv.eval(lo, hi);
+                const char* st = r.state() == Interval::EMPTY ? "E" : r.state() == Interval::FILLED ? "F" : "A";
+                out(std::string("IV ") + hex32(r.lower()) + " " + hex32(r.upper()) + " " + (r.isSafe() ? "0" : "1") + " " + st);
+                std::fesetround(FE_TONEAREST);
+                int pts = 0, bad = 0; std::string info;
+                if (r.isSafe()) {
+                    std::mt19937 rng(977);
+                    std::uniform_real_distribution<float> d(0.0f, 1.0f);
+                    float slack_lo = exact ? 0.0f : 1e-4f * std::max(1.0f, std::fabs(r.lower()));
+                    float slack_hi = exact ? 0.0f : 1e-4f * std::max(1.0f, std::fabs(r.upper()));
+                    for (int k = 0; k < 48; ++k) {
+                        Eigen::Vector3f p;
+                        for (int a = 0; a < 3; ++a) {
+                            float f;
+                            if (k < 8) f = ((k >> a) & 1) ? 1.0f : 0.0f;           // corners
+                            else if (k == 8) f = 0.5f;
+                            else f = d(rng);
+                            p(a) = lo(a) + f * (hi(a) - lo(a));
+                            if (k >= 9 && k < 24) {                                  // critical coordinates
+                                static const float crit[] = {0.0f, 1.0f, -1.0f, 0.5f, -0.5f};
+                                float c = crit[(k + a) % 5];
+                                if (c >= lo(a) && c <= hi(a) && ((k >> a) & 1)) p(a) = c;
+                            }
+                            p(a) = std::min(std::max(p(a), lo(a)), hi(a));
+                        }
+                        float v = ar.value(p);
+                        std::fesetround(FE_TONEAREST);
+                        // Eigen's kernels are not IEEE-conformant at +-inf (sqrt(inf) = NaN, ...):
+                        // points with an infinite intermediate are outside the explored domain
+                        if (ar.any_inf()) continue;
+                        ++pts;
+                        bool viol = std::isnan(v) || v < r.lower() - slack_lo || v > r.upper() + slack_hi;
+                        if (viol) {
+                            if (!bad) info = " p=" + hex32(p.x()) + "," + hex32(p.y()) + "," + hex32(p.z()) + " v=" + hex32(v);
+                            ++bad;
+                        }
+                    }
+                }
+                out("IS pts=" + std::to_string(pts) + " bad=" + std::to_string(bad) + info);
             }
             else out("ERR unknown command " + c);
         } catch (std::exception& e) {
